@@ -1595,7 +1595,7 @@ def run_slices(ctx, slices, total, assumptions):
                 st['ok'] += 1
     ctx.cover['slices'] = per
     report(ctx, cases, results, fails, slices, per_group=1 if ctx.quick else 2, rounds=8 if ctx.quick else 16,
-           budget=int(os.environ.get('VERIF_SHRINK_BUDGET', 90 if ctx.quick else 420)),
+           budget=int(os.environ.get('VERIF_SHRINK_BUDGET', 45 if ctx.quick else 420)),
            base=[k for k in slices if '-' not in k or k.startswith('xform')])
     seen = set()
     for r in results:
